@@ -1,5 +1,186 @@
 import ZoektModel.Basic.Proto
+import ZoektModel.C26.Spec
 namespace ZoektModel.C26
-/-- stub: no model driver for C26 yet -/
-def main : IO Unit := ZoektModel.Proto.runLines (fun _ => ZoektModel.Proto.badCase "no model driver for C26")
+open ZoektModel ZoektModel.Proto
+
+/-! line formats (see harness/cmd/c26/main.go)
+  byte string element: `x<hex>`;  lists: `-` when empty
+  set      : `x..,x..`                                     (sorted)
+  branches : `x<name>/x<version>+…`
+  reposmap : `nil` | `-` | `id:hs:time:<branches>;…`        (sorted by id)
+  brlist   : `x<name>:<token>;…`                            (in order)
+  table    : `k<fnv1a64 of slice>.<len>=<token>,…`  token `E` = roaring parse error, else `h<fnv1a64>.<len>` of the
+             parsed bitmap's canonical serialisation
+-/
+
+def xhex (b : Bytes) : String := "x" ++ (if b.isEmpty then "" else bytesToHex b)
+
+def unx (s : String) : Option Bytes :=
+  if s.startsWith "x" then hexCharsToBytes (s.drop 1).toString.toList else none
+
+def bytesLe : Bytes → Bytes → Bool
+  | [], _ => true
+  | _ :: _, [] => false
+  | a :: as, b :: bs => if a < b then true else if b < a then false else bytesLe as bs
+
+def showSet (l : List Bytes) : String := showList xhex (l.mergeSort bytesLe)
+
+def parseSet (s : String) : Option (List Bytes) :=
+  if s == "-" then some [] else (s.splitOn ",").mapM unx
+
+def showBranches (l : List (Bytes × Bytes)) : String :=
+  if l.isEmpty then "-" else "+".intercalate (l.map fun nv => xhex nv.1 ++ "/" ++ xhex nv.2)
+
+def parseBranches (s : String) : Option (List (Bytes × Bytes)) :=
+  if s == "-" then some [] else
+  (s.splitOn "+").mapM fun e =>
+    match e.splitOn "/" with
+    | [a, b] => do pure (← unx a, ← unx b)
+    | _ => none
+
+def showEntry (ke : Nat × Entry) : String :=
+  s!"{ke.1}:{if ke.2.hasSymbols then 1 else 0}:{ke.2.indexTime}:{showBranches ke.2.branches}"
+
+def showRMap : Option RMap → String
+  | none => "nil"
+  | some m => if m.isEmpty then "-" else ";".intercalate ((m.mergeSort fun a b => a.1 ≤ b.1).map showEntry)
+
+def parseRMap (s : String) : Option (Option RMap) :=
+  if s == "nil" then some none else if s == "-" then some (some []) else
+  (fun x => some x) <$> (s.splitOn ";").mapM fun e =>
+    match e.splitOn ":" with
+    | [k, h, t, b] => do pure (← k.toNat?, ⟨← bool? h, ← parseBranches b, ← t.toInt?⟩)
+    | _ => none
+
+/-- FNV-1a, 64 bit -/
+def fnv (b : Bytes) : Nat :=
+  b.foldl (fun h x => ((h ^^^ x.toNat) * 1099511628211) % 18446744073709551616) 14695981039346656037
+
+def sliceKey (b : Bytes) : String := s!"k{fnv b}.{b.length}"
+
+def parseTable (s : String) : Option (List (String × String)) :=
+  if s == "-" then some [] else
+  (s.splitOn ",").mapM fun e =>
+    match e.splitOn "=" with
+    | [a, b] => some (a, b)
+    | _ => none
+
+/-- roaring's `FromBuffer`, as observed by the harness on every slice the reader can reach -/
+def tableParse (t : List (String × String)) (s : Bytes) : Option String :=
+  let k := sliceKey s
+  match t.find? (fun p => p.1 == k) with
+  | some (_, tok) => if tok == "E" then none else some tok
+  | none => some "MISSING"   -- reported: the harness did not supply this slice
+
+def showBrList (l : List (Bytes × Option (Option String))) : String :=
+  if l.isEmpty then "-" else ";".intercalate (l.map fun p =>
+    xhex p.1 ++ ":" ++ (match p.2 with | none => "nil" | some none => "bad" | some (some t) => t))
+
+def parseBrEntries (s : String) : Option (List (Bytes × Bytes)) :=
+  if s == "-" then some [] else
+  (s.splitOn ";").mapM fun e =>
+    match e.splitOn ":" with
+    | [a, b] => do pure (← unx a, ← unx b)
+    | _ => none
+
+def showRet {α} (f : α → String) : Outcome (Ret α) → String
+  | .ok ⟨some v, _, _⟩ => "ok " ++ f v
+  | .ok ⟨none, _, _⟩ => "err"
+  | .panic _ => "panic"
+  | .err _ => "err"
+  | .diverge => "diverge"
+
+/-- outcome class of an implementation output (`ok …`, `err`, `panic`, `diverge`, `oom`) -/
+def implClass (impl : String) : String := (impl.splitOn " ").headD ""
+
+def decodeVerdict (codec : String) (len alloc : Nat) (model impl : String) : String :=
+  if checkDecodeP len (implClass impl) alloc then answer model
+  else if implClass impl == "ok" || implClass impl == "err" then specFail model s!"alloc-unbounded:{codec}"
+  else specFail model s!"decode-not-total:{codec}:{implClass impl}"
+
+/-- reader primitive ops; `m` only for the query package's reader -/
+def runOps (t : List (String × String)) : List Char → Reader → List String → Outcome (List String × Reader)
+  | [], r, acc => .ok (acc, r)
+  | 'u' :: ops, r, acc => runOps t ops r.uvarint.2 (acc ++ [s!"u{r.uvarint.1}"])
+  | 'b' :: ops, r, acc => runOps t ops r.byt.2 (acc ++ [s!"b{r.byt.1.toNat}"])
+  | 's' :: ops, r, acc =>
+    match r.str with
+    | .ok (s, r') => runOps t ops r' (acc ++ ["s" ++ (if s.isEmpty then "" else bytesToHex s)])
+    | .panic p => .panic p
+    | _ => .panic "?"
+  | 'm' :: ops, r, acc =>
+    match r.bitmap (tableParse t) with
+    | .ok (m, r') => runOps t ops r' (acc ++ [if m.isNone then "mnil" else "m"])
+    | .panic p => .panic p
+    | _ => .panic "?"
+  | _ :: _, _, _ => .panic "bad op"
+
+def encField (impl : String) : Option Bytes :=
+  match fields impl with
+  | e :: _ => if e.startsWith "enc=" then hexToBytes? (e.drop 4).toString else none
+  | _ => none
+
+def decField (impl : String) : String :=
+  match impl.splitOn " dec=" with
+  | [_, d] => d
+  | _ => "?"
+
+def handle (line : String) : String :=
+  let (inp, impl) := splitCase line
+  match fields inp with
+  | ["ssdec", h, a] =>
+    match hexToBytes? h, a.toNat? with
+    | some b, some alloc =>
+      decodeVerdict "stringset" b.length alloc (showRet showSet (stringSetDecode b)) impl
+    | _, _ => badCase "fields"
+  | ["rmdec", h, a] =>
+    match hexToBytes? h, a.toNat? with
+    | some b, some alloc =>
+      decodeVerdict "reposmap" b.length alloc (showRet showRMap (reposMapDecode b)) impl
+    | _, _ => badCase "fields"
+  | ["brdec", h, a, t] =>
+    match hexToBytes? h, a.toNat?, parseTable t with
+    | some b, some alloc, some tbl =>
+      decodeVerdict "branchesrepos" b.length alloc (showRet showBrList (branchesReposDecode (tableParse tbl) b)) impl
+    | _, _, _ => badCase "fields"
+  | ["rops", pkg, ops, h, t] =>
+    match hexToBytes? h, parseTable t with
+    | some b, some tbl =>
+      if pkg == "z" && ops.toList.contains 'm' then badCase "m op on zoekt reader" else
+      match runOps tbl ops.toList (Reader.init b) [] with
+      | .ok (res, r) => answer s!"{showList id res}|rest={bytesToHex r.b}|err={showBool r.err}"
+      | _ => answer "panic"
+    | _, _ => badCase "fields"
+  | ["ssrt", ks] =>
+    -- impl: `enc=<hex> dec=<canonical>`; the iteration order of the Go map is recovered from the encoding itself
+    match parseSet ks, encField impl with
+    | some keys, some enc =>
+      let dec := stringSetDecode enc
+      let order : List Bytes := match dec with | .ok ⟨some l, _, _⟩ => l | _ => []
+      let encOk := stringSetEncode order == enc && showSet order == showSet keys && order.length == keys.length
+      let model := s!"enc={if encOk then bytesToHex enc else "MODEL-ENCODER-DIFFERS"} dec={showRet showSet dec}"
+      if checkRoundTripP (showSet keys) (decField impl) then answer model else specFail model "roundtrip:stringset"
+    | _, _ => badCase "fields"
+  | ["rmrt", ms] =>
+    match parseRMap ms, encField impl with
+    | some m, some enc =>
+      let dec := reposMapDecode enc
+      let order : Option RMap := match dec with | .ok ⟨some v, _, _⟩ => v | _ => none
+      let encOk := reposMapEncode order == enc && showRMap order == showRMap m
+      let model := s!"enc={if encOk then bytesToHex enc else "MODEL-ENCODER-DIFFERS"} dec={showRet showRMap dec}"
+      if checkRoundTripP (showRMap m) (decField impl) then answer model else specFail model "roundtrip:reposmap"
+    | _, _ => badCase "fields"
+  | ["brrt", es, t] =>
+    match parseBrEntries es, parseTable t with
+    | some entries, some tbl =>
+      let enc := branchesReposEncode entries
+      let dec := branchesReposDecode (tableParse tbl) enc
+      let model := s!"enc={bytesToHex enc} dec={showRet showBrList dec}"
+      let orig := if entries.isEmpty then "-" else ";".intercalate (entries.map fun p =>
+        xhex p.1 ++ ":" ++ ((tableParse tbl p.2).getD "E"))
+      if checkRoundTripP orig (decField impl) then answer model else specFail model "roundtrip:branchesrepos"
+    | _, _ => badCase "fields"
+  | _ => badCase "op"
+
+def main : IO Unit := runLines handle
 end ZoektModel.C26
